@@ -1,0 +1,63 @@
+//go:build verif && verifwots
+
+package xmss
+
+import (
+	"bytes"
+
+	"github.com/theQRL/go-qrllib/misc"
+)
+
+func init() {
+	VerifWOTSCheck = func(x *XMSS, msg, sig []uint8, idx uint32) bool {
+		got := VerifLeafFromSignature(x.hashFunction, msg, sig, x.GetRoot(), x.GetPKSeed())
+		return got != nil && bytes.Equal(got, x.VerifRealLeaf(idx))
+	}
+}
+
+// VerifLeafFromSignature recomputes, the way verification does (hMsg,
+// wotsPKFromSig, lTree), the leaf that the WOTS part of sig commits to for
+// message msg under the given root and public seed.
+func VerifLeafFromSignature(hashFunction HashFunction, msg, sig, root, pubSeed []uint8) []uint8 {
+	n := WOTSParamN
+	wotsParams := NewWOTSParams(n, WOTSParamW)
+	if uint32(len(sig)) < 4+n+wotsParams.keySize {
+		return nil
+	}
+	idx := uint32(sig[0])<<24 | uint32(sig[1])<<16 | uint32(sig[2])<<8 | uint32(sig[3])
+	hashKey := make([]uint8, 3*n)
+	copy(hashKey[:n], sig[4:4+n])
+	copy(hashKey[n:2*n], root[:n])
+	misc.ToByteLittleEndian(hashKey[2*n:3*n], idx, n)
+	msgHash := make([]uint8, n)
+	if err := hMsg(hashFunction, msgHash, msg, hashKey, n); err != nil {
+		return nil
+	}
+	var otsAddr, lTreeAddr [8]uint32
+	misc.SetType(&otsAddr, 0)
+	misc.SetType(&lTreeAddr, 1)
+	misc.SetOTSAddr(&otsAddr, idx)
+	wotsPK := make([]uint8, wotsParams.keySize)
+	wotsPKFromSig(hashFunction, wotsPK, sig[4+n:], msgHash, wotsParams, pubSeed, &otsAddr)
+	misc.SetLTreeAddr(&lTreeAddr, idx)
+	leaf := make([]uint8, n)
+	lTree(hashFunction, wotsParams, leaf, wotsPK, pubSeed, &lTreeAddr)
+	return leaf
+}
+
+// VerifRealLeaf computes the real WOTS/L-tree leaf of index idx, bypassing the
+// leaf seam.
+func (x *XMSS) VerifRealLeaf(idx uint32) []uint8 {
+	saved := verifLeafFunc
+	verifLeafFunc = nil
+	defer func() { verifLeafFunc = saved }()
+	n := x.xmssParams.n
+	var otsAddr, lTreeAddr [8]uint32
+	misc.SetType(&otsAddr, 0)
+	misc.SetType(&lTreeAddr, 1)
+	misc.SetLTreeAddr(&lTreeAddr, idx)
+	misc.SetOTSAddr(&otsAddr, idx)
+	leaf := make([]uint8, n)
+	genLeafWOTS(x.hashFunction, leaf, x.sk[4:4+n], x.xmssParams, x.sk[4+2*n:4+3*n], &lTreeAddr, &otsAddr)
+	return leaf
+}
